@@ -46,6 +46,8 @@ type nodeEnv struct {
 	outsider chainkd.XPrv // a key that is not a validator
 	localIdx int          // index of the validator key the node under test holds, -1 = outsider
 	votePend uint64
+	// signedFor[target/order][source] = the valid signature handed out for that link
+	signedFor map[string]map[bc.Hash][]byte
 }
 
 type detReader struct{ r *rand.Rand }
@@ -379,9 +381,38 @@ func (env *nodeEnv) voteMsg(order int, source, target bc.Hash, valid bool) *casp
 		key, pub = env.keys[order], env.pubs[order]
 	}
 	sig := key.Sign(msg[:])
-	if !valid {
-		sig = append([]byte{}, sig...)
-		sig[5] ^= 0x40
+	rk := fmt.Sprintf("%x/%d", target.Bytes(), order)
+	if valid {
+		if env.signedFor == nil {
+			env.signedFor = map[string]map[bc.Hash][]byte{}
+		}
+		if env.signedFor[rk] == nil {
+			env.signedFor[rk] = map[bc.Hash][]byte{}
+		}
+		env.signedFor[rk][source] = sig
+	} else {
+		// an invalid signature is either garbage (one bit of the right signature flipped) or a
+		// REPLAY: a genuine signature of the same validator for the same target but ANOTHER
+		// source (a verifier that remembers "this validator's signature for this target was
+		// good" without the source accepts it)
+		replayed := false
+		if source.V0&1 == 0 {
+			var srcs []bc.Hash
+			for src := range env.signedFor[rk] {
+				if src != source {
+					srcs = append(srcs, src)
+				}
+			}
+			sort.Slice(srcs, func(i, j int) bool { return srcs[i].String() < srcs[j].String() })
+			if len(srcs) > 0 {
+				sig = append([]byte{}, env.signedFor[rk][srcs[0]]...)
+				replayed = true
+			}
+		}
+		if !replayed {
+			sig = append([]byte{}, sig...)
+			sig[5] ^= 0x40
+		}
 	}
 	return &casper.ValidCasperSignMsg{SourceHash: source, TargetHash: target, Signature: sig, PubKey: pub}
 }
